@@ -143,8 +143,40 @@ pub struct Fault {
     pub kind: CutKind,
 }
 
+/// One operation of the send-capacity program (C16): executed sequentially by a single server task that owns
+/// the SendStreams of the first `streams` requests.
+#[derive(Clone, Debug, Serialize, Deserialize)]
+pub enum CapOp {
+    Reserve { s: usize, n: usize },
+    /// await poll_capacity once
+    WaitCap { s: usize },
+    /// read capacity() and send exactly that many bytes
+    SendCap { s: usize },
+    /// blind send
+    Send { s: usize, n: usize },
+    /// read capacity() of every stream at once
+    Census,
+    End { s: usize },
+    Reset { s: usize, code: u32 },
+    Drop { s: usize },
+    Yield(usize),
+}
+
+#[derive(Clone, Debug, Serialize, Deserialize)]
+pub struct CapProgram {
+    pub streams: usize,
+    pub ops: Vec<CapOp>,
+}
+
 #[derive(Clone, Debug, Serialize, Deserialize)]
 pub struct PairCase {
+    /// C16: the server runs this program instead of per-request handlers
+    #[serde(default)]
+    pub cap: Option<CapProgram>,
+    /// C18: the server application stops accepting after this many streams (drives the connection with
+    /// poll_closed from then on)
+    #[serde(default)]
+    pub accept_limit: Option<usize>,
     pub ccfg: Cfg,
     pub scfg: Cfg,
     pub client_init_max_send: Option<usize>,
@@ -372,6 +404,8 @@ pub fn gen_pair(tapes: &[Vec<u32>], focus: Focus) -> PairCase {
     let n2 = t3.below(150);
     let chunk_s2c = (0..n2).map(|_| t3.u32()).collect();
     PairCase {
+        cap: None,
+        accept_limit: None,
         ccfg,
         scfg,
         client_init_max_send,
@@ -800,7 +834,11 @@ async fn client_main(io: Io, case: Rc<PairCase>, ctx: Ctx, cmds: Rc<RefCell<CmdQ
                     close_pinger(&cmds2);
                     return Poll::Ready(());
                 }
-                match std::pin::Pin::new(conn.as_mut().unwrap()).poll(cx) {
+                let polled = {
+                    let _t = crate::heapmeter::Tracked::new();
+                    std::pin::Pin::new(conn.as_mut().unwrap()).poll(cx)
+                };
+                match polled {
                     Poll::Ready(r) => {
                         log.push(Side::Client, 0, Api::ConnDone { result: r.map_err(|e| err_info(&e)) });
                         conn = None;
@@ -999,6 +1037,8 @@ async fn server_main(io: Io, case: Rc<PairCase>, ctx: Ctx, cmds: Rc<RefCell<CmdQ
         ctx.sp.spawn("server-pinger", Group::ServerApp, pinger(pp, cmds.clone(), Side::Server, log.clone()));
     }
     let mut conn = Some(conn);
+    let mut cap_handles: Vec<server::SendResponse<SegBuf>> = Vec::new();
+    let mut accepted_n = 0usize;
     loop {
         let next = poll_fn(|cx| {
             let mut drop_it = false;
@@ -1033,6 +1073,18 @@ async fn server_main(io: Io, case: Rc<PairCase>, ctx: Ctx, cmds: Rc<RefCell<CmdQ
             if drop_it {
                 return Poll::Ready(None);
             }
+            if case.accept_limit.map(|l| accepted_n >= l).unwrap_or(false) {
+                // not accepting any more: only drive the connection
+                let polled = {
+                    let _t = crate::heapmeter::Tracked::new();
+                    conn.as_mut().unwrap().poll_closed(cx)
+                };
+                return polled.map(|r| match r {
+                    Ok(()) => Some(None),
+                    Err(e) => Some(Some(Err(e))),
+                });
+            }
+            let _t = crate::heapmeter::Tracked::new();
             conn.as_mut().unwrap().poll_accept(cx).map(Some)
         })
         .await;
@@ -1051,7 +1103,22 @@ async fn server_main(io: Io, case: Rc<PairCase>, ctx: Ctx, cmds: Rc<RefCell<CmdQ
                 log.push(Side::Server, 0, Api::ConnDone { result: Err(err_info(&e)) });
                 break;
             }
+            Some(Some(Ok(_))) if false => {}
+            Some(Some(Ok((req, respond)))) if case.cap.is_some() && cap_handles.len() < case.cap.as_ref().unwrap().streams => {
+                let sid = respond.stream_id().as_u32();
+                log.push(Side::Server, 0, Api::Accepted { stream: sid });
+                let (_parts, body) = req.into_parts();
+                // request bodies are not interesting here: read and release in the background
+                ctx.sp.spawn(format!("s-reqbody-{}", sid), Group::ServerApp, read_body(body, Reader::Eager, 9000 + sid, Side::Server, log.clone()));
+                cap_handles.push(respond);
+                if cap_handles.len() == case.cap.as_ref().unwrap().streams {
+                    let prog = case.cap.clone().unwrap();
+                    let hs = std::mem::take(&mut cap_handles);
+                    ctx.sp.spawn("cap-app", Group::ServerApp, cap_app(prog, hs, log.clone()));
+                }
+            }
             Some(Some(Ok((req, respond)))) => {
+                accepted_n += 1;
                 let sid = respond.stream_id().as_u32();
                 log.push(Side::Server, 0, Api::Accepted { stream: sid });
                 let key: u32 = req.headers().get("x-id").and_then(|v| v.to_str().ok()).and_then(|s| s.parse().ok()).unwrap_or(9000 + sid);
@@ -1063,6 +1130,118 @@ async fn server_main(io: Io, case: Rc<PairCase>, ctx: Ctx, cmds: Rc<RefCell<CmdQ
     }
     drop(conn);
     close_pinger(&cmds);
+}
+
+/// The send-capacity program: one task, sequential operations over several response streams.
+async fn cap_app(prog: CapProgram, handles: Vec<server::SendResponse<SegBuf>>, log: Log) {
+    let mut streams: Vec<Option<SendStream<SegBuf>>> = Vec::new();
+    let mut sids: Vec<u32> = Vec::new();
+    let mut offs: Vec<u64> = Vec::new();
+    for mut h in handles {
+        let sid = h.stream_id().as_u32();
+        let resp = http::Response::builder().status(200).body(()).unwrap();
+        match h.send_response(resp, false) {
+            Ok(st) => {
+                log.push(Side::Server, sid, Api::SentHead { kind: "response", stream: sid, fields: vec![(":status".into(), "200".into())], eos: false });
+                streams.push(Some(st));
+            }
+            Err(e) => {
+                log.push(Side::Server, sid, Api::SendErr { op: "send_response", err: err_info(&e) });
+                streams.push(None);
+            }
+        }
+        sids.push(sid);
+        offs.push(0);
+    }
+    for op in &prog.ops {
+        match op {
+            CapOp::Yield(n) => yield_n(*n).await,
+            CapOp::Census => {
+                let v: Vec<(u32, usize)> = streams.iter().zip(sids.iter()).filter_map(|(s, id)| s.as_ref().map(|s| (*id, s.capacity()))).collect();
+                log.push(Side::Server, 0, Api::ConnOp { op: format!("census {:?}", v) });
+            }
+            CapOp::Reserve { s, n } => {
+                if let Some(Some(st)) = streams.get_mut(*s) {
+                    st.reserve_capacity(*n);
+                    log.push(Side::Server, sids[*s], Api::ConnOp { op: format!("reserve_capacity({})", n) });
+                }
+            }
+            CapOp::WaitCap { s } => {
+                if let Some(Some(st)) = streams.get_mut(*s) {
+                    // the documented use: wait only while nothing is assigned yet (waiting again with capacity in
+                    // hand, or after lowering a reservation, waits for a notification that is not owed)
+                    if st.capacity() > 0 {
+                        log.push(Side::Server, sids[*s], Api::ConnOp { op: format!("skip wait: capacity() = {}", st.capacity()) });
+                        continue;
+                    }
+                    let r = poll_fn(|cx| st.poll_capacity(cx)).await;
+                    match r {
+                        Some(Ok(c)) => log.push(Side::Server, sids[*s], Api::Capacity { got: c }),
+                        Some(Err(e)) => log.push(Side::Server, sids[*s], Api::CapacityErr { err: err_info(&e) }),
+                        None => log.push(Side::Server, sids[*s], Api::CapacityEnd),
+                    }
+                }
+            }
+            CapOp::SendCap { s } | CapOp::Send { s, .. } => {
+                if let Some(Some(st)) = streams.get_mut(*s) {
+                    let n = match op {
+                        CapOp::SendCap { .. } => {
+                            let c = st.capacity();
+                            log.push(Side::Server, sids[*s], Api::ConnOp { op: format!("capacity() = {}", c) });
+                            c
+                        }
+                        CapOp::Send { n, .. } => *n,
+                        _ => 0,
+                    };
+                    if n > 0 {
+                        let data: Vec<u8> = (0..n as u64).map(|i| mix(msg_id(sids[*s], Side::Server), offs[*s] + i)).collect();
+                        match st.send_data(SegBuf::new(data, &[]), false) {
+                            Ok(()) => {
+                                offs[*s] += n as u64;
+                                log.push(Side::Server, sids[*s], Api::SentData { len: n, eos: false });
+                            }
+                            Err(e) => log.push(Side::Server, sids[*s], Api::SendErr { op: "send_data", err: err_info(&e) }),
+                        }
+                    }
+                }
+            }
+            CapOp::End { s } => {
+                if let Some(slot) = streams.get_mut(*s) {
+                    if let Some(mut st) = slot.take() {
+                        match st.send_data(SegBuf::new(vec![], &[]), true) {
+                            Ok(()) => log.push(Side::Server, sids[*s], Api::SentData { len: 0, eos: true }),
+                            Err(e) => log.push(Side::Server, sids[*s], Api::SendErr { op: "send_data", err: err_info(&e) }),
+                        }
+                    }
+                }
+            }
+            CapOp::Reset { s, code } => {
+                if let Some(slot) = streams.get_mut(*s) {
+                    if let Some(mut st) = slot.take() {
+                        st.send_reset(h2::Reason::from(*code));
+                        log.push(Side::Server, sids[*s], Api::SentReset { code: *code });
+                    }
+                }
+            }
+            CapOp::Drop { s } => {
+                if let Some(slot) = streams.get_mut(*s) {
+                    if slot.take().is_some() {
+                        log.push(Side::Server, sids[*s], Api::DroppedSend);
+                    }
+                }
+            }
+        }
+    }
+    // finish whatever is still open
+    for (i, slot) in streams.iter_mut().enumerate() {
+        if let Some(mut st) = slot.take() {
+            match st.send_data(SegBuf::new(vec![], &[]), true) {
+                Ok(()) => log.push(Side::Server, sids[i], Api::SentData { len: 0, eos: true }),
+                Err(e) => log.push(Side::Server, sids[i], Api::SendErr { op: "send_data", err: err_info(&e) }),
+            }
+        }
+    }
+    log.push(Side::Server, 0, Api::ConnOp { op: "cap-app done".into() });
 }
 
 async fn server_handler(req: http::Request<RecvStream>, mut respond: server::SendResponse<SegBuf>, script: Option<Req>, key: u32, ctx: Ctx) {
@@ -1167,6 +1346,9 @@ pub struct PairRun {
     pub stats: Vec<(Side, Option<h2::verif::VerifStats>, bool)>,
     /// statistics sampled every 8 executor steps while the run was going: (step, side, stats)
     pub samples: Vec<(u64, Side, h2::verif::VerifStats)>,
+    /// live heap bytes allocated by connection-task polls (see heapmeter): running maximum and value at the end of the run
+    pub heap_peak: i64,
+    pub heap_end: i64,
 }
 
 pub fn run_pair(case: &PairCase) -> PairRun {
@@ -1180,6 +1362,7 @@ pub fn run_sim(case: &PairCase, raw: Option<(Side, Rc<crate::sim_raw::RawSpec>, 
 
 /// `e_out_cap`: finite capacity of the pipe that carries the h2 endpoint's output (RAW modes)
 pub fn run_sim_cap(case: &PairCase, raw: Option<(Side, Rc<crate::sim_raw::RawSpec>, Rc<RefCell<crate::sim_raw::PeerObs>>)>, e_out_cap: Option<usize>) -> PairRun {
+    crate::heapmeter::begin_case();
     let mut exec = Exec::new(case.sched.clone());
     let (cio, sio, wire) = duplex(&exec, case.chunk_c2s.clone(), case.chunk_s2c.clone(), case.vectored_c, case.vectored_s);
     if let (Some(cap), Some((side, _, _))) = (e_out_cap, raw.as_ref()) {
@@ -1324,8 +1507,11 @@ pub fn run_sim_cap(case: &PairCase, raw: Option<(Side, Rc<crate::sim_raw::RawSpe
             stats,
             samples,
             wire,
+            heap_peak: crate::heapmeter::peak(),
+            heap_end: crate::heapmeter::live(),
         };
         teardown_all(exec, ctx, &mut run);
+        crate::heapmeter::end_case();
         return run;
     }
     let stats = collect_stats(&ctx);
@@ -1339,8 +1525,11 @@ pub fn run_sim_cap(case: &PairCase, raw: Option<(Side, Rc<crate::sim_raw::RawSpe
         stats,
         samples,
         wire,
+        heap_peak: crate::heapmeter::peak(),
+        heap_end: crate::heapmeter::live(),
     };
     teardown_all(exec, ctx, &mut run);
+    crate::heapmeter::end_case();
     run
 }
 
